@@ -169,6 +169,7 @@ def register(reg):
             requires=cache_inv, ensures=tu_post, modifies=MOD, axioms=lambda ctx: defs(),
             raises={"DimensionalityError": tu_bad}, must_raise={"DimensionalityError": tu_bad},
             name=f"to_units<report={rep}>", primary=False, inline_calls=INL + [f"{U}.check_quantified", f"{U}.is_quantified"],
+            tags=["plain-payloads"],
         ))
 
 
@@ -380,7 +381,8 @@ def install(ex):
         c = ex.cur_contract
         if len(args) == 2 and isinstance(args[1], sv.SUnion) and c is not None and "plain-payloads" in c.tags:
             args = [args[0], ex.expect(args[1], sv.SObj, path, node, what="none")]   # Quantity(x, None) would be dimensionless
-        if len(args) == 2 and is_unit(args[1]) and isinstance(args[0], (sv.SReal, sv.SPay)):
+        if len(args) == 2 and is_unit(args[1]) and isinstance(args[0], (sv.SReal, sv.SPay)) and c is not None and "plain-payloads" in c.tags:
+            # units of C17: the label is carried next to the magnitude (data.units), values are magnitudes
             return sv.SPay(args[0].e, args[1])
         return old_q(ex, path, args, kwargs, node)
 
